@@ -22,9 +22,9 @@
    about what the bounds checks of `new` make of them, in both build modes.  Before the repair 5f925c7 (finding
    F12) they did not hold them: C08_mapped_old_refuted.
 
-   NOT covered, and a finding: IntVectorMapper::new does not look at the width element.  For the widths the library
-   writes (1..64; also 0) `get` is covered for every index.  For a width >= 2^64 - 63 the statement is FALSE in
-   release builds: C08_mapped_get_wide_refuted (finding F14: table read outside LOW_SET through the safe `get`).
+   IntVectorMapper::new refuses a width element of 0 or above 64 (repair ed19660 of finding F14), so `get` is
+   covered for EVERY accepted view and EVERY index: C08_no_oob_mapped_get.  Before the repair `new` did not look at
+   the width element and the statement was false in release builds: C08_mapped_get_wide_old_refuted.
    Real pointers, alignment and the lifetime of the mapping are outside the model (index logic only). *)
 From Coq Require Import NArith List Bool.
 Require Import SDS.Model.Mach SDS.Model.Bits SDS.Model.Raw SDS.Model.IntVec SDS.Model.Mapped SDS.Model.MappedGet.
@@ -129,32 +129,56 @@ Theorem C08_mapped_old_refuted :
 Proof. exact len_overflow_old_refuted. Qed.
 Print Assumptions C08_mapped_old_refuted.
 
-(* `get` of the integer-vector view for EVERY width element: the statement one would like, and which the code
-   as it is now does not satisfy. *)
-Definition C08_no_oob_mapped_get_statement : Prop := forall m file offset v j,
+(* `get` of the integer-vector view: ANY file, ANY offset, every view type (the mapper itself or inside options),
+   both modes: a view that `new` returned has a width element in 1..64, and get(j) for EVERY j is a value or a
+   panic, never an out-of-bounds access - and it is the function C13 reasons about. *)
+Theorem C08_no_oob_mapped_get : forall m t file offset,
   lenN file < 2 ^ 61 -> offset < 2 ^ 64 ->
-  view_new m TyInt file offset = VOk (VwInt v) -> is_oob (im_get_w m v j) = false.
+  match view_new m t file offset with
+  | VOk v => view_int_widths v /\ view_get_safe m v
+  | VErr _ => True
+  | VPanic _ => False
+  | VOOB _ => False
+  end.
+Proof. exact no_oob_mapped_get. Qed.
+Print Assumptions C08_no_oob_mapped_get.
 
-(* Finding F14.  The library-written file of Vec<u64> [2^64-1, 2^64-1, 0, 1, 5] = elements
-   [5; 2^64-1; 2^64-1; 0; 1; 5]: IntVectorMapper::new(&map, 1) succeeds in both build modes with
-   len = width = 2^64-1 over one data word, entirely inside the file; get(2^64-2) passes the assertion; without
-   overflow checks `index * width` wraps to bit offset 2, `offset + width` wraps to 1 <= 64, and
-   `low_set_unchecked(width)` reads entry 2^64-1 of the 65-entry table LOW_SET.  With overflow checks the
-   multiplication panics. *)
-Theorem C08_mapped_get_wide_refuted :
-  (forall m, view_new m TyInt f14_file 1 = VOk (VwInt f14_view)) /\
+(* the same for the mapper requested directly, with the predicates written out *)
+Theorem C08_no_oob_mapped_get_direct : forall m file offset v j,
+  lenN file < 2 ^ 61 -> offset < 2 ^ 64 ->
+  view_new m TyInt file offset = VOk (VwInt v) ->
+  1 <= im_width v <= 64 /\ is_oob (im_get_w m v j) = false /\ im_get_w m v j = im_get m v j /\
+  ((exists x, im_get_w m v j = Ok x) \/ (exists k, im_get_w m v j = Panic k)).
+Proof.
+  intros m file offset v j Hf Ho E. pose proof (no_oob_mapped_get m TyInt file offset Hf Ho) as H.
+  rewrite E in H. destruct H as (Hw & Hg). destruct (Hg j) as (Hs & He).
+  split; [exact Hw|]. split; [exact Hs|]. split; [exact He|]. apply safe_cases, Hs.
+Qed.
+Print Assumptions C08_no_oob_mapped_get_direct.
+
+(* a width element of 0 or above 64 is refused with InvalidData by every build, whatever else the file holds *)
+Theorem C08_mapped_bad_width_refused : forall m file offset width,
+  lenN file < 2 ^ 64 -> nthN file (offset + 1) = Some width -> width = 0 \/ 64 < width ->
+  view_new m TyInt file offset = VErr InvalidData.
+Proof.
+  intros m file offset width Hf Hw Hb. cbn [view_new]. rewrite (im_new_badwidth m file offset width Hw Hf Hb). reflexivity.
+Qed.
+Print Assumptions C08_mapped_bad_width_refused.
+
+(* Finding F14, `new` as it was before the repair ed19660 ([im_new_nowidth]: the width element is not looked at).
+   The library-written file of Vec<u64> [2^64-1, 2^64-1, 0, 1, 5] = elements [5; 2^64-1; 2^64-1; 0; 1; 5]:
+   IntVectorMapper::new(&map, 1) succeeded in both build modes with len = width = 2^64-1 over one data word,
+   entirely inside the file; get(2^64-2) passes the assertion; without overflow checks `index * width` wraps to
+   bit offset 2, `offset + width` wraps to 1 <= 64, and `low_set_unchecked(width)` reads entry 2^64-1 of the
+   65-entry table LOW_SET.  With overflow checks the multiplication panics.  The repaired `new` refuses the view. *)
+Theorem C08_mapped_get_wide_old_refuted :
+  (forall m, im_new_nowidth m f14_file 1 = VOk f14_view) /\
   view_inside f14_file (VwInt f14_view) /\
   im_get_w Release f14_view (2 ^ 64 - 2) = OOB SITE_LOW_SET /\
   im_get_w Debug f14_view (2 ^ 64 - 2) = Panic POverflow /\
-  ~ C08_no_oob_mapped_get_statement.
-Proof.
-  destruct int_get_wide_refuted as (Hn & Hi & Hr & Hd).
-  split; [exact Hn|]. split; [exact Hi|]. split; [exact Hr|]. split; [exact Hd|].
-  intros H. specialize (H Release f14_file 1 f14_view (2 ^ 64 - 2)).
-  rewrite Hr in H. assert (E : true = false); [|discriminate E].
-  apply H; [reflexivity|reflexivity|apply Hn].
-Qed.
-Print Assumptions C08_mapped_get_wide_refuted.
+  (forall m, view_new m TyInt f14_file 1 = VErr InvalidData).
+Proof. exact int_get_wide_old_refuted. Qed.
+Print Assumptions C08_mapped_get_wide_old_refuted.
 
 (* ---- non-vacuity: C13's example file (one padding element and eight structures); views that exist, are read
    through, and are asked for indexes far outside ---- *)
